@@ -170,6 +170,7 @@ func RunOne(t *testing.T, rs RunSpec) (out *RunOutput) {
 			evs = sim.Events()
 		})
 	}()
+	simrt.Uninstall()
 	if w == nil || res == nil {
 		if out.Infra == "" {
 			out.Infra = "run did not complete"
